@@ -1,6 +1,6 @@
 (* InstancesConc.v — the concurrent model at the harness's key/value instance *)
 From Coq Require Import ZArith.
-From GB Require Import Model Conc Instances GI CInv.
+From GB Require Import Model Conc Instances GI CInv NoDeadlock.
 
 Definition c_st := st HK HV.
 Definition c_cstep := @cstep HK HV hltb.
@@ -16,3 +16,4 @@ Definition c_gi_b := @gi_b HK HV hltb.
 Definition c_gi_full_b := @gi_full_b HK HV hltb.
 Definition c_all_pc_ok_b := @all_pc_ok_b HK HV hltb.
 Definition c_occ_ok_b := @occ_ok_b HK HV.
+Definition c_all_pc_ok2_b := @all_pc_ok2_b HK HV.
